@@ -36,6 +36,8 @@ func errPathsSorted(o *Outcome) []string {
 
 func runC02(c *run.Ctx) {
 	defer c02Methods(c)
+	defer c02MethodArgErrors(c)
+	defer c02Reregister(c)
 	defer c02Sequences(c)
 	defer c02Farm(c)
 	c.Rule = "each generated tuple is served by interface resolvers, a root (any) resolver, reflection over dynamically built and registered struct types, and three per-node mixtures " +
